@@ -23,6 +23,12 @@ import zipfile
 from harness import core
 
 HI, REPL = "^", "`"
+BLK, ABLK = "{", "}"                      # length classes (Links!BLK, Links!ABLK): one character = one block of bytes
+BLOCK_BYTES = 120
+BLOCK = ("\u0416" * (BLOCK_BYTES // 2)).encode("utf-8")          # non-ASCII, valid UTF-8: percent-coded 3:1 in URLs
+ABLOCK = b"q" * BLOCK_BYTES                                       # ASCII letters
+_BLOCK_S, _ABLOCK_S = BLOCK.decode("utf-8"), ABLOCK.decode("ascii")
+_QBLOCK_S = "%D0%96" * (BLOCK_BYTES // 2)
 GOPHER_VIEWS = ("G", "GP", "GD", "SG", "SGP", "SGD")
 URL_VIEWS = ("H", "HS", "W", "M", "S")
 ALL_VIEWS = GOPHER_VIEWS + URL_VIEWS
@@ -38,6 +44,8 @@ OWN_CLASS = {"G": "GopherProtocol", "GP": "GopherPlusProtocol", "GD": "GopherPlu
 # B1: constants read from the working tree
 class Consts:
     def __init__(self, hi_byte=0xFF, server_port=70):
+        self.block_bytes = BLOCK_BYTES          # Links!BlockBytes
+        self.deep_depth = 16                    # Links!DeepDepth: 16 x ~241 bytes stays below PATH_MAX with the root
         cp = configparser.ConfigParser()
         cp.read(os.path.join(core.REPO, "conf", "pygopherd.conf"))
         self.bound = True
@@ -77,18 +85,25 @@ class Consts:
 
     def cfg_block(self):
         return ("  ProtoOrder <- K_ProtoOrder\n  WapTop = %s\n  QueryPrefix = %s\n  ServerName = %s\n  ServerPort = %d\n"
-                "  HiCode = \"%02X\"\n  Fixes = {%s}\n" % (json.dumps(self.waptop), json.dumps(self.query_prefix),
-                                                          json.dumps(self.server_name), self.server_port, self.hi_byte,
-                                                          ", ".join(json.dumps(x) for x in self.fixes)))
+                "  HiCode = \"%02X\"\n  BlockBytes = %d\n  DeepDepth = %d\n  Fixes = {%s}\n"
+                % (json.dumps(self.waptop), json.dumps(self.query_prefix), json.dumps(self.server_name), self.server_port,
+                   self.hi_byte, self.block_bytes, self.deep_depth, ", ".join(json.dumps(x) for x in self.fixes)))
 
 
 # ---------------------------------------------------------------------------------------------------
 # abstract text <-> bytes
 def conc(s: str, hi_byte=0xFF) -> bytes:
     out = bytearray()
+    if "%{{" in s:                   # the percent-coded block
+        parts = s.split("%{{")
+        return _QBLOCK_S.encode("ascii").join(conc(x, hi_byte) for x in parts)
     for ch in s:
         if ch == HI:
             out.append(hi_byte)
+        elif ch == BLK:
+            out += BLOCK
+        elif ch == ABLK:
+            out += ABLOCK
         elif ch == REPL:
             out += b"\xef\xbf\xbd"
         else:
@@ -99,6 +114,8 @@ def conc(s: str, hi_byte=0xFF) -> bytes:
 def absx(b) -> str:
     """bytes (or a surrogate-escaped str) -> abstract text; total (unknown characters are spelled out)."""
     s = b.decode("utf-8", "surrogateescape") if isinstance(b, (bytes, bytearray)) else b
+    if len(s) >= 60:                 # length classes: a whole block (raw or percent-coded) is one abstract character
+        s = s.replace(_QBLOCK_S, "%\x01\x01").replace(_BLOCK_S, "\x01").replace(_ABLOCK_S, "\x02")
     out = []
     for ch in s:
         o = ord(ch)
@@ -106,12 +123,16 @@ def absx(b) -> str:
             out.append(HI)
         elif o == 0xFFFD:
             out.append(REPL)
-        elif ch in (HI, REPL):
-            out.append("{U+%04X}" % o)
+        elif o == 1:
+            out.append(BLK)
+        elif o == 2:
+            out.append(ABLK)
+        elif ch in (HI, REPL, BLK, ABLK):
+            out.append("(U+%04X)" % o)
         elif o < 0x80:
             out.append(ch)
         else:
-            out.append("{U+%04X}" % o)
+            out.append("(U+%04X)" % o)
     return "".join(out)
 
 
@@ -166,6 +187,9 @@ def materialise(w, case, hi_byte=0xFF, extra=None):
         w.write(n, map_file(b"zz"))
     elif k == "mbox":
         w.write(n, MBOX_MSG)
+    elif k == "deep":
+        depth = int(case.get("depth", 16))
+        w.write("/".join([n] * depth) + "/leaf", DOC % b"leaf")
     elif k == "maildir":
         for d in ("new", "cur", "tmp"):
             w.mkdir(n + "/" + d)
@@ -221,23 +245,34 @@ def ref_path(base: str, href: str) -> str:
 _SAFE = set("abcdefghijklmnopqrstuvwxyzABCDEFGHIJKLMNOPQRSTUVWXYZ0123456789_.-~")
 
 
+def _pct(text: str, k: Consts, safe: str, plus_for_space: bool) -> str:
+    """Percent-code abstract text, staying abstract: a block class is coded as a block ("%{{"), the ASCII block is safe."""
+    out = []
+    for ach in text:
+        if ach == BLK:
+            out.append("%{{")
+        elif ach == ABLK:
+            out.append(ABLK)
+        else:
+            for b in conc(ach, k.hi_byte):
+                ch = chr(b)
+                if ch in _SAFE or ch in safe:
+                    out.append(ch)
+                elif ch == " " and plus_for_space:
+                    out.append("+")
+                else:
+                    out.append("%%%02X" % b)
+    return "".join(out)
+
+
 def client_encode(q: str, k: Consts, plus_for_space: bool) -> str:
     """How a client percent-codes what the user typed (form submission / Gemini query)."""
-    out = []
-    for b in conc(q, k.hi_byte):
-        ch = chr(b)
-        if ch in _SAFE:
-            out.append(ch)
-        elif ch == " " and plus_for_space:
-            out.append("+")
-        else:
-            out.append("%%%02X" % b)
-    return "".join(out)
+    return _pct(q, k, "", plus_for_space)
 
 
 def client_encode_path(sel: str, k: Consts) -> str:
     """A selector as a URL path (what urllib.parse.quote(selector) yields): mirror of Links!PctQuote."""
-    return "".join(chr(b) if (chr(b) in _SAFE or chr(b) == "/") else "%%%02X" % b for b in conc(sel, k.hi_byte))
+    return _pct(sel, k, "/", False)
 
 
 def root_ref(p, k: Consts) -> str:
@@ -267,7 +302,7 @@ def follow(p, t, base, q, k: Consts) -> dict:
         return {"line": "gemini://" + k.server_name + path + ("?" + client_encode(q, k, False) if q else "") + "\r\n",
                 "rest": "", "tls": tls}
     if p == "S":
-        return {"line": "%s %s %d\r\n" % (k.server_name, path, len(q)), "rest": q, "tls": tls}
+        return {"line": "%s %s %d\r\n" % (k.server_name, path, len(conc(q, k.hi_byte))), "rest": q, "tls": tls}
     raise ValueError(p)
 
 
@@ -574,6 +609,7 @@ def crawl(w, p, k: Consts, query="q", limit=60):
             q = query if t["mark"] == "search" else ""
             chain = []
             rq = follow(p, t, base, q, k)
+            rq0, nb0 = rq, len(conc(rq["line"], k.hi_byte)) + len(conc(rq["rest"], k.hi_byte))
             r = send(w, rq, k)
             c = classify(p, r, k)
             if p == "M" and c["cls"] == "prompt":
@@ -592,7 +628,7 @@ def crawl(w, p, k: Consts, query="q", limit=60):
                     r = send(w, rq3, k)
                     c = classify(p, r, k)
                     chain.append({"line": rq3["line"], "cls": c["cls"], "loc": ""})
-            events.append({"ev": "follow", "base": base, "i": i, "q": q, "req": rq, "chain": chain,
+            events.append({"ev": "follow", "base": base, "i": i, "q": q, "req": rq0, "nbytes": nb0, "chain": chain,
                            "cls": c["cls"], "obj": c["obj"], "by": c["by"][0],
                            "lexed": c["entries"] is not None or c["obj"] != "menu"})
             concrete.append({"rq": rq, "out": r.out[:400].decode("latin-1"), "log": r.log[-2:], "escaped": r.escaped})
